@@ -88,6 +88,26 @@ func genRun(c *common.Corpus, seed uint64, cold bool, syncHeavy bool) (*simrt.Ru
 			}
 			spec.Tasks = append(spec.Tasks, calls)
 		}
+	case x < 4:
+		// one input asked very many times by one task while others do ordinary work
+		shape = "hammer"
+		a, i := api(), pick(r, classes.probe, classes.short)
+		n := []int{20, 50, 120, 300}[r.Intn(4)]
+		var calls []simrt.Call
+		for k := 0; k < n; k++ {
+			calls = append(calls, mk(a, i))
+		}
+		spec.Tasks = append(spec.Tasks, calls)
+		for t := 1; t < nt && t < 3; t++ {
+			var cs []simrt.Call
+			for k := 0; k < 3; k++ {
+				cs = append(cs, mk(api(), pick(r, classes.probe, classes.short)))
+			}
+			if r.Intn(2) == 0 {
+				cs = append(cs, mk(a, i))
+			}
+			spec.Tasks = append(spec.Tasks, cs)
+		}
 	case x < 30:
 		shape = "uniform"
 		for t := 0; t < nt; t++ {
